@@ -6,7 +6,7 @@
    = unused_sound (UnusedProofs / Stage2Unused) composed with remove_preserves_trace (RemoveProofs). *)
 From Coq Require Import NArith List Bool Arith Lia.
 From Verif Require Import Scope.PySyntax Scope.Finder Scope.PySem Scope.Fragment Scope.AuxProofs Scope.FinderProofs
-                          Scope.UnusedProofs Scope.Remove Scope.RemoveProofs Scope.Stage2Unused Scope.Stage3Erase.
+                          Scope.UnusedProofs Scope.Remove Scope.RemoveProofs Scope.Stage2Unused Scope.Stage3Erase Scope.DocUnused.
 Import ListNotations.
 
 (* the removal set tidy-imports derives from the report: is (l, i) one of the reported (line, import) pairs *)
@@ -59,8 +59,10 @@ Proof.
 Qed.
 
 (* ---------- what fix_unused_and_missing_imports really calls: scan_for_import_issues(parse_docstrings=True).
-   On programs whose docstring / string statements hold no doctest example and no {brace} identifier (both fragments
-   allow only those) it is the same report, and the trace with doctests is the trace. ---------- *)
+   On programs whose docstring / string statements hold no doctest example and no {brace} identifier it is the same
+   report, and the trace with doctests is the trace (nodoc_finder / nodoc_pysem); with doctest examples that are
+   load-only expression statements (Fragment.dx_docs; any {brace} identifiers) the report is still sound for the trace
+   WITH the doctests (DocUnused), which gives the theorems below. ---------- *)
 Lemma with_unused_id : forall s, with_unused s (unused s) = s.
 Proof. intros []; reflexivity. Qed.
 
@@ -94,164 +96,23 @@ Proof.
   intros [|x r] H. constructor. inversion H as [|? ? Hx Hr]; subst. cbn [container_docs]. apply Forall_app'. exact Hx. apply epydoc_plain. exact Hr.
 Qed.
 
-(* ---------- stage 2 ---------- *)
-Lemma s2_doc_of : forall x, s2_stmt x = true -> Forall plain_doc (doc_of x) /\ (forall ln ex br, x = SDoc ln ex br -> br = []).
-Proof.
-  intros [] H; cbn [doc_of]; try (split; [constructor|intros; discriminate]).
-  cbn [s2_stmt] in H. apply andb_true_iff in H as [H1 H2]. apply is_nil_true in H1, H2. subst. split.
-  constructor. reflexivity. constructor. intros ln0 ex br E. injection E as _ _ <-. reflexivity.
-Qed.
-Lemma s2_block_doc_of : forall l, s2_block l = true -> Forall (fun x => Forall plain_doc (doc_of x)) l.
-Proof.
-  induction l as [|x l IH]; intro H. constructor. cbn in H. apply andb_true_iff in H as [H1 H2].
-  constructor. apply (s2_doc_of x H1). apply IH. exact H2.
-Qed.
-
-Definition NoDocs2 (x : stmt) : Prop := s2_stmt x = true -> Forall plain_doc (docs_stmt x) /\ strings_stmt x = [].
-Lemma nodoc_blocks2 : forall l, Forall NoDocs2 l -> s2_block l = true ->
-  Forall plain_doc ((fix nested (l : list stmt) : list docstring := match l with [] => [] | x :: r => docs_stmt x ++ nested r end) l) /\
-  (fix nested (l : list stmt) : list name := match l with [] => [] | x :: r => strings_stmt x ++ nested r end) l = [].
-Proof.
-  induction l as [|x l IH]; intros HF Hs. split. constructor. reflexivity.
-  inversion HF as [|? ? Hx HF']; subst. cbn in Hs. apply andb_true_iff in Hs as [H1 H2].
-  destruct (Hx H1) as [A B]. destruct (IH HF' H2) as [C D]. split. apply Forall_app'; assumption. rewrite B, D. reflexivity.
-Qed.
-Lemma s2_blk_fix' : forall l,
-  (fix blk (l : list stmt) : bool := match l with [] => true | y :: r => s2_stmt y && blk r end) l = s2_block l.
-Proof. reflexivity. Qed.
-
-Lemma nodoc_stmts2 : forall x, NoDocs2 x.
-Proof.
-  induction x using stmt_ind'; intro Hs; try (split; [constructor|reflexivity]); try discriminate.
-  - (* SDef *) cbn [s2_stmt] in Hs. rewrite s2_blk_fix' in Hs. apply andb_true_iff in Hs as [_ Hb].
-    destruct (nodoc_blocks2 body H Hb) as [A B]. cbn [docs_stmt strings_stmt]. rewrite B. split; [|reflexivity].
-    apply Forall_app'. apply container_plain. apply s2_block_doc_of. exact Hb. exact A.
-  - (* SFor *) cbn [s2_stmt] in Hs. rewrite !s2_blk_fix' in Hs.
-    apply andb_true_iff in Hs as [H123 H4]. apply andb_true_iff in H123 as [_ H3].
-    destruct (nodoc_blocks2 b H H3) as [A B]. destruct (nodoc_blocks2 o H0 H4) as [C D].
-    cbn [docs_stmt strings_stmt]. rewrite B, D. split; [|reflexivity]. apply Forall_app'; assumption.
-  - (* SWhile *) cbn [s2_stmt] in Hs. rewrite !s2_blk_fix' in Hs.
-    apply andb_true_iff in Hs as [H12 H3]. apply andb_true_iff in H12 as [_ H2]. apply is_nil_true in H3. subst o.
-    destruct (nodoc_blocks2 b H H2) as [A B]. cbn [docs_stmt strings_stmt]. rewrite B. split; [|reflexivity]. apply Forall_app'. exact A. constructor.
-  - (* SIf *) cbn [s2_stmt] in Hs. rewrite !s2_blk_fix' in Hs.
-    apply andb_true_iff in Hs as [H12 H3]. apply andb_true_iff in H12 as [_ H2]. apply is_nil_true in H3. subst o.
-    destruct (nodoc_blocks2 b H H2) as [A B]. cbn [docs_stmt strings_stmt]. rewrite B. split; [|reflexivity]. apply Forall_app'. exact A. constructor.
-  - (* SWith *) cbn [s2_stmt] in Hs. rewrite !s2_blk_fix' in Hs. apply andb_true_iff in Hs as [_ H2].
-    destruct (nodoc_blocks2 b H H2) as [A B]. cbn [docs_stmt strings_stmt]. rewrite B. split; [exact A|reflexivity].
-  - (* STry *) cbn [s2_stmt] in Hs. rewrite !s2_blk_fix' in Hs.
-    apply andb_true_iff in Hs as [Habc Hd]. apply andb_true_iff in Habc as [Hab Hc]. apply andb_true_iff in Hab as [Ha Hb].
-    apply is_nil_true in Hb. subst hs.
-    destruct (nodoc_blocks2 b H Ha) as [A B]. destruct (nodoc_blocks2 o H1 Hc) as [C D]. destruct (nodoc_blocks2 f H2 Hd) as [E F].
-    cbn [docs_stmt strings_stmt]. rewrite B, D, F. split; [|reflexivity]. cbn [app]. repeat apply Forall_app'; assumption.
-  - (* SDoc *) cbn [s2_stmt] in Hs. apply andb_true_iff in Hs as [H1 H2]. apply is_nil_true in H2. subst br.
-    split. constructor. reflexivity.
-Qed.
-
-Lemma s2_nodoc : forall p, s2_block p = true -> Forall plain_doc (docstrings_of p) /\ brace_ids p = [].
-Proof.
-  intros p H. unfold docstrings_of, brace_ids. split.
-  - apply Forall_app'. apply container_plain. apply s2_block_doc_of. exact H.
-    induction p as [|x p IH]. constructor. cbn in H. apply andb_true_iff in H as [H1 H2]. cbn [flat_map].
-    apply Forall_app'. apply (nodoc_stmts2 x H1). apply IH. exact H2.
-  - induction p as [|x p IH]. reflexivity. cbn in H. apply andb_true_iff in H as [H1 H2]. cbn [flat_map].
-    rewrite (proj2 (nodoc_stmts2 x H1)), (IH H2). reflexivity.
-Qed.
-
-Lemma u2_is_s2 : forall p, u2_block p = true -> s2_block p = true.
-Proof.
-  induction p as [|x p IH]; intro H. reflexivity. cbn in H. apply andb_true_iff in H as [H1 H2].
-  cbn. rewrite (proj1 (Stage2Erase.u2_top_split x H1)). apply IH. exact H2.
-Qed.
-
-Theorem tidy_fix_preserves_trace_stage2 : forall bi ns p, u2_block p = true -> star_free bi ns = true ->
+(* ---------- tidy's removal step, as it runs (docstrings parsed), preserves the trace including the doctests ---------- *)
+Theorem tidy_fix_preserves_trace_stage2 : forall bi ns p, u2_block p = true -> dx_docs p = true -> star_free bi ns = true ->
   imports_once bi ns p = true -> NoDup (imp_events (bsrcs_block false p)) ->
   let R := in_report (snd (finder_doc bi ns p)) in
   pysem_doc bi ns (remove_top R p) = pysem_doc bi ns p.
 Proof.
-  intros bi ns p Hu Hsf Ho Hnd. cbv zeta.
-  destruct (s2_nodoc p (u2_is_s2 p Hu)) as [Hd Hb].
-  rewrite (nodoc_finder bi ns p Hd Hb).
-  rewrite (nodoc_pysem bi ns p Hd). rewrite nodoc_pysem by (rewrite docstrings_remove; exact Hd).
-  apply (tidy_remove_preserves_trace_stage2 bi ns p Hu Hsf Ho Hnd).
+  intros bi ns p Hu Hdx Hsf Ho Hnd. cbv zeta. apply remove_preserves_trace_doc.
+  intros ln n l i Hread. destruct (in_report (snd (finder_doc bi ns p)) l i) eqn:E; auto. exfalso.
+  apply in_report_In in E. exact (u2_doc_unused_sound bi ns p Hu Hdx Hsf Ho Hnd l i E ln n Hread).
 Qed.
 
-(* ---------- stage 3 ---------- *)
-Lemma s3_doc_of : forall x, s3_stmt x = true -> Forall plain_doc (doc_of x) /\ (forall ln ex br, x = SDoc ln ex br -> br = []).
-Proof.
-  intros [] H; cbn [doc_of]; try (split; [constructor|intros; discriminate]).
-  cbn [s3_stmt] in H. apply andb_true_iff in H as [H1 H2]. apply is_nil_true in H1, H2. subst. split.
-  constructor. reflexivity. constructor. intros ln0 ex br E. injection E as _ _ <-. reflexivity.
-Qed.
-Lemma s3_block_doc_of : forall l, s3_block l = true -> Forall (fun x => Forall plain_doc (doc_of x)) l.
-Proof.
-  induction l as [|x l IH]; intro H. constructor. cbn in H. apply andb_true_iff in H as [H1 H2].
-  constructor. apply (s3_doc_of x H1). apply IH. exact H2.
-Qed.
-
-Definition NoDocs3 (x : stmt) : Prop := s3_stmt x = true -> Forall plain_doc (docs_stmt x) /\ strings_stmt x = [].
-Lemma nodoc_blocks3 : forall l, Forall NoDocs3 l -> s3_block l = true ->
-  Forall plain_doc ((fix nested (l : list stmt) : list docstring := match l with [] => [] | x :: r => docs_stmt x ++ nested r end) l) /\
-  (fix nested (l : list stmt) : list name := match l with [] => [] | x :: r => strings_stmt x ++ nested r end) l = [].
-Proof.
-  induction l as [|x l IH]; intros HF Hs. split. constructor. reflexivity.
-  inversion HF as [|? ? Hx HF']; subst. cbn in Hs. apply andb_true_iff in Hs as [H1 H2].
-  destruct (Hx H1) as [A B]. destruct (IH HF' H2) as [C D]. split. apply Forall_app'; assumption. rewrite B, D. reflexivity.
-Qed.
-Lemma s3_blk_fix' : forall l,
-  (fix blk (l : list stmt) : bool := match l with [] => true | y :: r => s3_stmt y && blk r end) l = s3_block l.
-Proof. reflexivity. Qed.
-
-Lemma nodoc_stmts3 : forall x, NoDocs3 x.
-Proof.
-  induction x using stmt_ind'; intro Hs; try (split; [constructor|reflexivity]); try discriminate.
-  - (* SDef *) cbn [s3_stmt] in Hs. rewrite s3_blk_fix' in Hs. apply andb_true_iff in Hs as [_ Hb].
-    destruct (nodoc_blocks3 body H Hb) as [A B]. cbn [docs_stmt strings_stmt]. rewrite B. split; [|reflexivity].
-    apply Forall_app'. apply container_plain. apply s3_block_doc_of. exact Hb. exact A.
-  - (* SFor *) cbn [s3_stmt] in Hs. rewrite !s3_blk_fix' in Hs.
-    apply andb_true_iff in Hs as [H123 H4]. apply andb_true_iff in H123 as [_ H3].
-    destruct (nodoc_blocks3 b H H3) as [A B]. destruct (nodoc_blocks3 o H0 H4) as [C D].
-    cbn [docs_stmt strings_stmt]. rewrite B, D. split; [|reflexivity]. apply Forall_app'; assumption.
-  - (* SWhile *) cbn [s3_stmt] in Hs. rewrite !s3_blk_fix' in Hs.
-    apply andb_true_iff in Hs as [H12 H3]. apply andb_true_iff in H12 as [_ H2]. apply is_nil_true in H3. subst o.
-    destruct (nodoc_blocks3 b H H2) as [A B]. cbn [docs_stmt strings_stmt]. rewrite B. split; [|reflexivity]. apply Forall_app'. exact A. constructor.
-  - (* SIf *) cbn [s3_stmt] in Hs. rewrite !s3_blk_fix' in Hs.
-    apply andb_true_iff in Hs as [H12 H3]. apply andb_true_iff in H12 as [_ H2]. apply is_nil_true in H3. subst o.
-    destruct (nodoc_blocks3 b H H2) as [A B]. cbn [docs_stmt strings_stmt]. rewrite B. split; [|reflexivity]. apply Forall_app'. exact A. constructor.
-  - (* SWith *) cbn [s3_stmt] in Hs. rewrite !s3_blk_fix' in Hs. apply andb_true_iff in Hs as [_ H2].
-    destruct (nodoc_blocks3 b H H2) as [A B]. cbn [docs_stmt strings_stmt]. rewrite B. split; [exact A|reflexivity].
-  - (* STry *) cbn [s3_stmt] in Hs. rewrite !s3_blk_fix' in Hs.
-    apply andb_true_iff in Hs as [Habc Hd]. apply andb_true_iff in Habc as [Hab Hc]. apply andb_true_iff in Hab as [Ha Hb].
-    apply is_nil_true in Hb. subst hs.
-    destruct (nodoc_blocks3 b H Ha) as [A B]. destruct (nodoc_blocks3 o H1 Hc) as [C D]. destruct (nodoc_blocks3 f H2 Hd) as [E F].
-    cbn [docs_stmt strings_stmt]. rewrite B, D, F. split; [|reflexivity]. cbn [app]. repeat apply Forall_app'; assumption.
-  - (* SDoc *) cbn [s3_stmt] in Hs. apply andb_true_iff in Hs as [H1 H2]. apply is_nil_true in H2. subst br.
-    split. constructor. reflexivity.
-Qed.
-
-Lemma s3_nodoc : forall p, s3_block p = true -> Forall plain_doc (docstrings_of p) /\ brace_ids p = [].
-Proof.
-  intros p H. unfold docstrings_of, brace_ids. split.
-  - apply Forall_app'. apply container_plain. apply s3_block_doc_of. exact H.
-    induction p as [|x p IH]. constructor. cbn in H. apply andb_true_iff in H as [H1 H2]. cbn [flat_map].
-    apply Forall_app'. apply (nodoc_stmts3 x H1). apply IH. exact H2.
-  - induction p as [|x p IH]. reflexivity. cbn in H. apply andb_true_iff in H as [H1 H2]. cbn [flat_map].
-    rewrite (proj2 (nodoc_stmts3 x H1)), (IH H2). reflexivity.
-Qed.
-
-Lemma u3_is_s3 : forall p, u3_block p = true -> s3_block p = true.
-Proof.
-  induction p as [|x p IH]; intro H. reflexivity. cbn in H. apply andb_true_iff in H as [H1 H2].
-  cbn. rewrite (proj1 (Stage3Erase.u3_top_split x H1)). apply IH. exact H2.
-Qed.
-
-Theorem tidy_fix_preserves_trace_stage3 : forall bi ns p, u3_block p = true -> star_free bi ns = true ->
+Theorem tidy_fix_preserves_trace_stage3 : forall bi ns p, u3_block p = true -> dx_docs p = true -> star_free bi ns = true ->
   imports_once bi ns p = true -> NoDup (imp_events (bsrcs_block false p)) ->
   let R := in_report (snd (finder_doc bi ns p)) in
   pysem_doc bi ns (remove_top R p) = pysem_doc bi ns p.
 Proof.
-  intros bi ns p Hu Hsf Ho Hnd. cbv zeta.
-  destruct (s3_nodoc p (u3_is_s3 p Hu)) as [Hd Hb].
-  rewrite (nodoc_finder bi ns p Hd Hb).
-  rewrite (nodoc_pysem bi ns p Hd). rewrite nodoc_pysem by (rewrite docstrings_remove; exact Hd).
-  apply (tidy_remove_preserves_trace_stage3 bi ns p Hu Hsf Ho Hnd).
+  intros bi ns p Hu Hdx Hsf Ho Hnd. cbv zeta. apply remove_preserves_trace_doc.
+  intros ln n l i Hread. destruct (in_report (snd (finder_doc bi ns p)) l i) eqn:E; auto. exfalso.
+  apply in_report_In in E. exact (u3_doc_unused_sound bi ns p Hu Hdx Hsf Ho Hnd l i E ln n Hread).
 Qed.
